@@ -30,10 +30,12 @@ def load_json(path, dflt):
 
 def failure_belongs(f, prop, uprops):
     tags = [t for t in f["tags"]]
+    # a composed property (C01) is broken by a broken obligation of any property it is composed of, in the units it runs
+    accept = [prop] + list((P.PROPS.get(prop) or {}).get("compose", []))
     if tags:
-        return any(t.startswith(prop + ".") for t in tags)
+        return any(t.startswith(a + ".") for t in tags for a in accept)
     if f["fn_tags"]:
-        return prop in f["fn_tags"]
+        return any(a in f["fn_tags"] for a in accept)
     return prop in uprops
 
 
